@@ -237,7 +237,7 @@ def tryAddBatchLength (produceVersion : Int) (topic : Bytes) (existing : Option 
       else if flexible then bwl + (uvarlen topic.length + topic.length + 1 + 1)
       else
         let topicLength : Int := 2 + topic.length + 4
-        let topicLength := if unknown && decide (topicLength < 16 + 1 + 1) then 16 + 1 + 1 else topicLength
+        let topicLength := if unknown && decide (topicLength < 16 + 4 + 1) then 16 + 4 + 1 else topicLength
         bwl + topicLength
     if flexible then bwl + (uvarlen (ntopics + 1) - uvarlen ntopics) else bwl
   | some n =>
